@@ -61,6 +61,84 @@ def _shift_term_targets(t, B):
             t['u'] += B
 
 
+_TOK = re.compile(r"[A-Za-z_][A-Za-z0-9_]*")
+
+
+def _instantiate_generics(cal, callee_raw, call):
+    """a generic helper is inlined with the type arguments of the call: the MIR facts are pre-monomorphisation, so the copy of
+    `fn parse_number<T: FromStr>` called as `parse_number::<u64>` would otherwise still say `str::parse::<T>`.  The parameter names are
+    read off by aligning the callee's declared return type with the concrete one in the call's function type."""
+    f = call.get('f')
+    if not isinstance(f, dict) or not f.get('substs') or not f.get('c'):
+        return
+    tsub = [x for x in f['substs'] if not x.startswith("'")]
+    if not tsub:
+        return
+    m = re.search(r"\)\s*->\s*(.*?)\s*\{", f['c'])
+    ret_c = m.group(1) if m else None
+    ret_g = callee_raw.get('ret')
+    if not ret_c or not ret_g:
+        return
+    strip = lambda x: re.sub(r"\b(std|core|alloc)::[a-z_:]*::", '', x)
+    tg, tc = _TOK.findall(strip(ret_g)), _TOK.findall(strip(ret_c))
+    if len(tg) != len(tc):
+        return
+    mp = {}
+    for a, b in zip(tg, tc):
+        if a != b:
+            if re.fullmatch(r'[A-Z][A-Za-z0-9]*', a) and b in tsub and mp.get(a, b) == b:
+                mp[a] = b
+            elif a.split('::')[-1] != b.split('::')[-1]:
+                return          # the two types differ in something that is not a type parameter: leave the copy generic
+    if not mp:
+        return
+    rx = re.compile(r'\b(%s)\b' % '|'.join(re.escape(k) for k in mp))
+    sub = lambda x: rx.sub(lambda mm: mp[mm.group(1)], x) if isinstance(x, str) else x
+    for l in cal['locals']:
+        if 'ty' in l:
+            l['ty'] = sub(l['ty'])
+
+    def walk(o):
+        if isinstance(o, dict):
+            if 'fn' in o and 'substs' in o:
+                o['substs'] = [sub(x) for x in o['substs']]
+                if 'c' in o:
+                    o['c'] = sub(o['c'])
+            for k, v in o.items():
+                if k in ('ty', 'c') and isinstance(v, str) and k != 'c':
+                    o[k] = sub(v)
+                else:
+                    walk(v)
+        elif isinstance(o, list):
+            for v in o:
+                walk(v)
+    for blk in cal['blocks']:
+        walk(blk['term'])
+        walk(blk['stmts'])
+
+
+def _expand_then_some(cal):
+    """in the copy of a helper that is being inlined, `flag.then_some(v)` becomes the branch it stands for
+    (flag: dst = Some(v) / else: dst = None), so that path rules see the test of the flag (a helper that returns
+    `check(..).then_some(value)` instead of `if check(..) { Some(value) } else { None }`)"""
+    n0 = len(cal['blocks'])
+    for blk in list(cal['blocks']):
+        t = blk['term']
+        if t['k'] != 'call' or not isinstance(t.get('f'), dict) or not (t['f'].get('fn') or '').endswith('<impl bool>::then_some'):
+            continue
+        if len(t['args']) != 2 or t.get('t') is None or not isinstance(t['args'][0], dict) or 'l' not in t['args'][0] or t['args'][0].get('p'):
+            continue
+        cont = t['t']
+        ti = len(cal['blocks'])
+        cal['blocks'].append({'i': ti, 'cleanup': blk['cleanup'], 'stmts': [{'k': 'assign', 'dst': copy.deepcopy(t['dst']), 'rv': {'k': 'agg', 'ak': 'adt', 'adt': 'Option', 'var': 'Some', 'fields': ['0'], 'ops': [copy.deepcopy(t['args'][1])]}, 's': t.get('s'), 'inl': 'comb'}],
+                              'term': {'k': 'goto', 't': cont}})
+        fi = len(cal['blocks'])
+        cal['blocks'].append({'i': fi, 'cleanup': blk['cleanup'], 'stmts': [{'k': 'assign', 'dst': copy.deepcopy(t['dst']), 'rv': {'k': 'agg', 'ak': 'adt', 'adt': 'Option', 'var': 'None', 'fields': [], 'ops': []}, 's': t.get('s'), 'inl': 'comb'}],
+                              'term': {'k': 'goto', 't': cont}})
+        blk['term'] = {'k': 'switch', 'd': copy.deepcopy(t['args'][0]), 'ts': [['0', fi]], 'else': ti, 's': t.get('s')}
+    return len(cal['blocks']) - n0
+
+
 def inline_into(caller_raw, callee_raw, bi):
     """returns a new raw body: caller with the call in block bi replaced by the callee's blocks"""
     new = caller_raw
@@ -68,6 +146,8 @@ def inline_into(caller_raw, callee_raw, bi):
     L = len(new['locals'])
     B = len(new['blocks'])
     cal = copy.deepcopy({'locals': callee_raw['locals'], 'blocks': callee_raw['blocks'], 'debug': callee_raw.get('debug', [])})
+    _expand_then_some(cal)
+    _instantiate_generics(cal, callee_raw, call)
     for blk in cal['blocks']:
         _shift(blk['stmts'], L, B)
         _shift(blk['term'], L, B)
@@ -491,7 +571,7 @@ def flatten_closures(P, raw, depth=3, done=None):
     new = copy.deepcopy(raw)
     guard = 0
     handled = set()
-    while guard < 40:
+    while guard < 60:
         guard += 1
         target = None
         for blk in new['blocks']:
@@ -558,6 +638,9 @@ def flatten_closures(P, raw, depth=3, done=None):
                     cb['term'] = {'k': 'goto', 't': call['u']}
             new['locals'] = new['locals'] + cal['locals']
             new['blocks'] = new['blocks'] + cal['blocks']
+            # a local closure that is called at several places (`let is_taken = |c| ..; if is_taken(a) ..; loop { if is_taken(b) .. }`):
+            # look for the next direct call of the same closure value
+            handled.discard((target[0], target[1]))
         else:
             nd = L + len(cal['locals'])          # fresh undetermined bool
             LB = B + len(cal['blocks'])          # loop head
